@@ -314,6 +314,8 @@ type wstate struct {
 	sortedOK map[string]bool // files sorted by a previous Clean and unchanged since
 }
 
+var footerLine = regexp.MustCompile(`(?m)^at (.+):\d+$`)
+
 var libFrame = regexp.MustCompile(`/(snaps|match|internal/[a-z]+)/[a-zA-Z_]+\.go:\d+`)
 
 func (st *wstate) runLifetime(i int, l *scen.Lifetime) {
@@ -431,7 +433,9 @@ func (st *wstate) runLifetime(i int, l *scen.Lifetime) {
 	for _, c := range rep.Calls {
 		sigs := ""
 		for _, sg := range c.Signals {
-			sigs += sg.Kind + ":" + model.StripANSI(sg.Text) + ";"
+			// (the line number in the footer of a diff report depends on where other tests'
+			// entries landed in the file)
+			sigs += sg.Kind + ":" + footerLine.ReplaceAllString(model.StripANSI(sg.Text), "at $1:N") + ";"
 		}
 		out.Stats.Trace = append(out.Stats.Trace, fmt.Sprintf("L%d call %d/%d %s [%s]", i, c.CallID, c.Exec, c.Test, sigs))
 	}
